@@ -156,4 +156,11 @@ where
       | .num n => pure n.mantissa.toNat
       | _ => .error "nat expected")
 
+/-- {"op":"abspath","cwd":"/a/b","path":p} -/
+def opAbsPath (j : Json) : R Json := do
+  let cwd ← fldStr j "cwd"
+  let p ← fldStr j "path"
+  let segs := absPath (pathSegs cwd) p
+  pure (Json.mkObj [("ok", .str ("/" ++ "/".intercalate segs))])
+
 end Drv
